@@ -1,0 +1,29 @@
+// Verification hooks (runtime monitoring).  Everything in this file, and every use of it in
+// the library, is compiled only when ROMEA_CORE_COMMON_VERIF is defined; without the define
+// the library is unchanged.
+
+#ifndef ROMEA_CORE_COMMON__VERIF__VERIFHOOKS_HPP_
+#define ROMEA_CORE_COMMON__VERIF__VERIFHOOKS_HPP_
+
+#ifdef ROMEA_CORE_COMMON_VERIF
+
+extern "C" {
+
+// Called once per iteration of an otherwise unbounded loop; a non-zero return leaves the loop.
+// The weak default never interrupts; a monitor may override it with a strong definition.
+__attribute__((weak)) int romea_verif_loop_iter(const char * /*site*/, unsigned long /*iteration*/)
+{
+  return 0;
+}
+
+// Called between two critical sections; a monitor may yield or sleep here to widen the
+// window in which another thread can interleave.  The weak default does nothing.
+__attribute__((weak)) void romea_verif_yield(const char * /*site*/)
+{
+}
+
+}  // extern "C"
+
+#endif  // ROMEA_CORE_COMMON_VERIF
+
+#endif  // ROMEA_CORE_COMMON__VERIF__VERIFHOOKS_HPP_
